@@ -11,6 +11,7 @@ the parser between pieces exactly as the service loops do.
     count_splits(n, k)    how many there are (closed form, used to cross-check counters)
     shard(iterable, i, n) deterministic round-robin sharding of an enumeration
     idle_patterns(npieces, counts, max_dev)  idle service passes (parser resumed with NO new bytes) per gap
+    guarded(fn, short, long, state)  run one execution under a watchdog, confirm a hit once; stuck_in(ex)
     feed(buf, pieces, step)          extend a bytearray piece by piece, step() after each
     drive(parsent, pieces, ...)      the same for ioflo Parsent-like objects (.msg/.parse/.parser)
     drive_gen(raw, gen, pieces, ...) the same for a bare ioflo parse generator over a bytearray
@@ -173,6 +174,38 @@ def drive(parsent, pieces, close=False, idle=2, done=None, gaps=None):
     for p in pieces[i + 1:]:
         parsent.msg.extend(p)
     return Drive(steps, finished, exc, delivered)
+
+
+def guarded(fn, short=5.0, long=20.0, state=None):
+    """Run fn() under core.watchdog(short).  A hit is confirmed once by running fn() again under
+    watchdog(long) (a loaded machine must not be mistaken for a hang); `state` (a dict shared by the
+    caller across calls) remembers a confirmed hang so later hits are taken at face value.
+    Returns (result, None) or (None, Watchdog exception of the confirming run).  fn must build
+    fresh objects itself: after a hit the interrupted objects are garbage."""
+    from mc import core
+    try:
+        with core.watchdog(short):
+            return fn(), None
+    except core.Watchdog as ex:
+        if state is not None and state.get("confirmed"):
+            return None, ex
+    try:
+        with core.watchdog(long):
+            return fn(), None
+    except core.Watchdog as ex:
+        if state is not None:
+            state["confirmed"] = True
+        return None, ex
+
+
+def stuck_in(ex, marker="/ioflo/"):
+    """Innermost function of files matching marker in a Watchdog's traceback (where the code spins)."""
+    import traceback
+    fn = "?"
+    for fr in traceback.extract_tb(ex.__traceback__):
+        if marker in fr.filename:
+            fn = fr.name
+    return fn
 
 
 def drive_gen(raw, gen, pieces, idle=1):
